@@ -11,6 +11,13 @@ type PropSpec struct {
 }
 
 var propSpecs = map[string]*PropSpec{
+	"C22": {
+		Patterns:    []string{"./..."},
+		Level:       "proof",
+		Explanation: "oauth.ValidateJWT returns a nil error only for a token whose signature the JWT library verified with a key the keyfunc returned (the keyfunc is under contract: published JWKS keys only, ECDSA/RSA only), with expiry required and in the future, issuer/audience options set from the configuration, and whose jti was looked up in the revocation list on this call; every entry put into OAuthJWTCache satisfied that at insertion",
+		TrustedBase: []string{"golang-jwt/v5 ParseWithClaims verifies the signature with the key returned by the keyfunc and enforces the parser options", "JWKS document fetch and JWK parsing (parseECPublicKey/parseRSAPublicKey yield published keys)", "tokens.IsIDBlacklisted answers for the revocation list (C21)", "caches.Find/Add for OAuthJWTCache: entry invariant established at insertion (call-site census + immutability of JWTCacheEntry fields are table obligations)"},
+		Extra:       c22Extra,
+	},
 	"C25": {
 		Patterns:    []string{"./..."},
 		Level:       "proof",
